@@ -190,10 +190,57 @@ fn sql_has_literal_mark(b: B, sql: &str, nvals: usize) -> bool {
     match crate::reflex::lex(b, sql) { Ok(t) => crate::reflex::params(&t).len() != nvals, Err(_) => true }
 }
 
+/// templates over EXPRESSIONS (`cust_with_exprs`): a placeholder designates an expression, which must be rendered exactly as the
+/// backend renders it on its own (enum casts, functions, sub-queries, parentheses), and bind exactly its values, in order of appearance
+fn check_exprs(ctx: &mut Ctx, b: B, r: &mut SplitMix64) {
+    let a = |s: &str| Alias::new(s);
+    let pool: Vec<(&str, SimpleExpr)> = vec![
+        ("col", Expr::col(a("c")).into()), ("int", Expr::val(7).into()), ("str", Expr::val("it's ?").into()),
+        ("bin", Expr::col(a("c")).add(1)), ("fn", Func::max(Expr::col(a("m"))).into()), ("null", SimpleExpr::Keyword(Keyword::Null)),
+        ("enum", Expr::val("bold").as_enum(a("font_variant"))), ("enum_array", SimpleExpr::AsEnum(a("font_variant[]").into_iden(), Box::new(Expr::val("x").into()))),
+        ("enum_in_bin", Expr::col(a("v")).eq(Expr::val("thin").as_enum(a("weight")))), ("tuple", Expr::tuple([Expr::val(1).into(), Expr::val(2).into()]).into()),
+        ("subq", SimpleExpr::SubQuery(None, Box::new(Query::select().column(a("z")).from(a("u")).and_where(Expr::col(a("z")).eq(3)).to_owned().into_sub_query_statement()))),
+        ("cust", Expr::cust("now()")), ("case", CaseStatement::new().case(Expr::col(a("k")).eq(1), 10).finally(20).into()), ("not", Expr::col(a("n")).eq(1).not()),
+    ];
+    // (template with {i} holes in order of appearance) ; on Postgres the holes are numbered, so they may also be permuted
+    let shapes: [(&str, &[usize]); 6] = [("{} + {}", &[0, 1]), ("f({}, {})", &[0, 1]), ("{} = ANY({})", &[0, 1]), ("({})", &[0]), ("{} BETWEEN {} AND {}", &[0, 1, 2]), ("{} - {}", &[1, 0])];
+    let (shape, order) = *r.pick(&shapes);
+    let k = order.len();
+    let picks: Vec<usize> = (0..k).map(|_| r.below(pool.len() as u64) as usize).collect();
+    let exprs: Vec<SimpleExpr> = picks.iter().map(|i| pool[*i].1.clone()).collect();
+    // the template text: holes filled with the backend's placeholder syntax
+    let numbered = b == B::Postgres;
+    let appear: Vec<usize> = if numbered { order.to_vec() } else { (0..k).collect() };
+    let mut t = String::new(); let mut hole = 0;
+    for part in shape.split("{}") { t.push_str(part); if hole < k { if numbered { t.push_str(&format!("${}", appear[hole] + 1)); } else { t.push('?'); } hole += 1; } }
+    let q = Query::select().expr(Expr::cust_with_exprs(t.as_str(), exprs.clone())).to_owned();
+    let alone = |e: &SimpleExpr| -> Option<(String, Vec<Value>)> {
+        let q = Query::select().expr(e.clone()).to_owned();
+        let i = to_string_q(b, &q)?; let (_, v) = build_q(b, &q)?;
+        Some((i.strip_prefix("SELECT ").unwrap_or(&i).to_string(), v.0))
+    };
+    let singles: Vec<Option<(String, Vec<Value>)>> = exprs.iter().map(alone).collect();
+    let names: Vec<&str> = picks.iter().map(|i| pool[*i].0).collect();
+    ctx.eval_only(&format!("exprs {} {} {:?}", b.name(), t, names), true);
+    ctx.count(&format!("templates.exprs.{}", b.name()));
+    if singles.iter().any(|s| s.is_none()) { return; }
+    let singles: Vec<(String, Vec<Value>)> = singles.into_iter().map(|s| s.unwrap()).collect();
+    let mut want = String::new(); let mut want_vals: Vec<Value> = Vec::new(); let mut hole = 0;
+    for part in shape.split("{}") { want.push_str(part); if hole < k { let (txt, vs) = &singles[appear[hole]]; want.push_str(txt); want_vals.extend(vs.iter().cloned()); hole += 1; } }
+    let inline = to_string_q(b, &q).map(|s| s.strip_prefix("SELECT ").unwrap_or(&s).to_string());
+    let built = build_q(b, &q);
+    let info = || serde_json::json!({"backend": b.name(), "template": t, "expressions": names, "expected": want, "got": inline});
+    if inline.as_deref() != Some(want.as_str()) { ctx.count("oracle.unclassified"); ctx.oracle_fail("a template over expressions does not render each designated expression as the backend renders it on its own", info()); }
+    match built {
+        None => { ctx.count("oracle.unclassified"); ctx.oracle_fail("a template over expressions cannot be built", info()); }
+        Some((_, v)) => if v.0 != want_vals { ctx.count("oracle.unclassified"); ctx.oracle_fail("a template over expressions does not bind the values of the designated expressions in order of appearance", { let mut j = info(); j["values"] = serde_json::json!(format!("{:?}", v.0)); j["expected_values"] = serde_json::json!(format!("{:?}", want_vals)); j }); }
+    }
+}
+
 pub fn run(ctx: &mut Ctx) {
     let thorough = ctx.tier_thorough;
     let n = if thorough { 300000 } else { 40000 };
-    ctx.rule = format!("{} templates assembled from words, operators, whitespace, quoted literals / identifiers (with embedded marks, doubled and backslash-escaped quotes, brackets), positional and numbered placeholders ($0, $n, $word, bare $), doubled and tripled marks, lone quotes and backslashes x value lists of 0..4 x 3 backends: crate (to_string and build) vs model (inline text, parameterised text, value order); independent quote-aware specification as oracle; inject_parameters on every (sql, values) pair from build() vs to_string and vs the model; plus inject_parameters on statements with string constants containing marks, quotes and backslashes. Non-trivial = non-empty template; distinct by request.", n);
+    ctx.rule = format!("{} templates assembled from words, operators, whitespace, quoted literals / identifiers (with embedded marks, doubled and backslash-escaped quotes, brackets), positional and numbered placeholders ($0, $n, $word, bare $), doubled and tripled marks, lone quotes and backslashes x value lists of 0..4 x 3 backends: crate (to_string and build) vs model (inline text, parameterised text, value order); independent quote-aware specification as oracle; inject_parameters on every (sql, values) pair from build() vs to_string and vs the model; templates over expressions (cust_with_exprs: enum casts, functions, sub-queries, CASE, tuples as designated values; numbered holes permuted on Postgres): text = template with each hole replaced by the expression's own rendering, values = the expressions' values in order of appearance; plus inject_parameters on statements with string constants containing marks, quotes and backslashes. Non-trivial = non-empty template; distinct by request.", n);
     let corpus = ["", "?", "??", "???", "$1", "$$", "$", "a = ? AND b = '?'", "x $2 y $1", "'a''?' ?", "\"a\\\"?\" $1", "[?] ?", "$0", "$x", "$1a", "? ?", "'unterminated ?", "a$b ?", "é?", "m[idx[1]] = ?"];
     for b in B::all() { for t in corpus { for nv in 0..3 { check_template(ctx, b, t, nv); } } }
     for _ in 0..n {
@@ -203,6 +250,7 @@ pub fn run(ctx: &mut Ctx) {
         let nv = r.below(5) as usize;
         check_template(ctx, b, &t, nv);
     }
+    for _ in 0..n / 10 { let mut r = ctx.rng.fork(); let b = *r.pick(&B::all()); check_exprs(ctx, b, &mut r); }
     // inject_parameters on ordinary statements with nasty constants
     for _ in 0..n / 8 {
         let mut r = ctx.rng.fork();
